@@ -358,7 +358,10 @@ def main():
         else:
             violations.append(f)
     for m in mism:
-        broken.append(("correspondence", "model and implementation disagree on %s[%d]: %s" % (m["list"], m["index"], m["label"][:600])))
+        if m["list"].endswith("_wf"):
+            broken.append(("hypotheses", "a history the harness ran is outside the theorems' well-formedness hypothesis (wfb = false) %s[%d]: %s" % (m["list"], m["index"], m["label"][:600])))
+        else:
+            broken.append(("correspondence", "model and implementation disagree on %s[%d]: %s" % (m["list"], m["index"], m["label"][:600])))
 
     axioms = set()
     for n, lines in assumptions.items():
